@@ -338,6 +338,35 @@ def run_r7(ctx, rule):
         rule.bad("chunk_size/setter", "anchor missing: no store to chunk_size (set_chunk_size expected)", kind="anchor-missing")
 
 
+def run_r9(ctx, rule):
+    """Binary AIGER has no lines: an and-gate entry is two 7-bit encoded numbers, and what bounds the look-ahead there
+    is the encoder's maximal length (10 groups for 64 bits).  `binary_uint` looks ahead group by group without
+    consuming; the loop must give up at a constant number of groups *inside* the loop - a test behind the loop lets
+    a run of continuation bytes of any length be buffered first."""
+    from .c05 import counter_bound
+    facts = ctx.facts
+    ids = [i for i in facts.fns if norm(i) == "flussab_aiger::token::binary_uint"]
+    if not ids:
+        rule.bad("binary_uint/missing", "anchor missing: flussab_aiger::token::binary_uint", kind="anchor-missing")
+        return
+    fn = facts.fns[ids[0]]
+    c = cfg(fn)
+    loops = c.loops()
+    sy = sym(fn)
+    n = 0
+    for bb, t in fn.calls():
+        if norm(util.cname(t)) not in (A.DR + "request_byte_at_offset", A.DR + "request") or not any(bb in body for body in loops.values()):
+            continue
+        off = sy.operand(t["args"][1])
+        if off[0] == "c":
+            continue
+        n += 1
+        cb = counter_bound(fn, bb, off)
+        rule.check(cb is not None and cb[0] <= 64, "binary_uint/look-ahead-bounded", "binary_uint looks ahead at offset %s: %s" % (sy.show(off)[:30], "at most %d (%s)" % cb if cb else "no constant bound inside the loop (a run of continuation bytes is buffered whole before it is rejected)"), fn.loc(bb))
+    if not n:
+        rule.bad("binary_uint/no-loop", "binary_uint no longer looks ahead in a loop (unrecognised form)", fn.loc(), kind="unmodelled-idiom")
+
+
 def run(ctx):
     r1 = ctx.rule("C10-R1", "every growth of a buffer that outlives the call is dominated by a clear() of the same buffer (streaming entry points)", floor=9)
     run_r1(ctx, r1)
@@ -350,6 +379,8 @@ def run(ctx):
     from . import c05, taint as T
     r4 = ctx.rule("C10-R4", "no allocation or reservation is sized by a number the input merely declares (shared with C05-R5)", floor=1)
     c05.run_r5(ctx, r4, T.Taint(ctx.facts))
+    r9 = ctx.rule("C10-R9", "binary numbers: the look-ahead of the 7-bit decoder is bounded by a constant number of groups, tested inside its loop", floor=1)
+    run_r9(ctx, r9)
     r7 = ctx.rule("C10-R7", "the chunk size is what the caller configured: stored by its setter and the constructor only", floor=1)
     run_r7(ctx, r7)
     r6 = ctx.rule("C10-R6", "look-ahead loops at a varying offset live in the token functions only (one item each); parser-level loops consume as they go", floor=1)
